@@ -61,6 +61,22 @@ def unit_rows(a):
     return stats
 
 
+def unit_long_rows(a):
+    """cells with many escapes / long rows (a bound on the number of escapes handled per cell would show here)"""
+    stats = Stats()
+    units = ["\\n", "\\|", "\\\\", "\\x", "\\ ", "ab", " \\n "]
+
+    def gen():
+        for n in a["lengths"]:
+            for u in units:
+                yield {"sub": "row", "row": "| " + u * n + " |", "doc": n <= 300}
+                yield {"sub": "row", "row": "|" + u * n + "|" + u * (n // 2) + " | z |", "doc": False}
+            yield {"sub": "row", "row": "|" + "".join(units[i % len(units)] for i in range(n)) + "|", "doc": n <= 300}
+            yield {"sub": "row", "row": "|" + " c%d |" * n % tuple(range(n)) if n < 500 else "|" + " c |" * n, "doc": False}
+    sweep(stats, gen(), check_row)
+    return stats
+
+
 # ------------------------------------------------------------------ unicode rows
 ROW_CHARS = st.one_of(
     st.sampled_from(["|", "|", "\\", "\\", "n", " ", " ", "\t", "\xa0", "　", "\x0b", "\x0c", "\r", "x", "é",
@@ -221,6 +237,7 @@ def run(ctx):
     maxlen, doclen = (6, 5) if q else (9, 7)
     ctx.units("rows-exhaustive", unit_rows,
               [{"maxlen": maxlen, "doclen": doclen, "shard": i, "nshards": ns} for i in range(ns)], procs=ns)
+    ctx.units("rows-long", unit_long_rows, [{"lengths": list(range(1, 40)) + [63, 64, 65, 100, 127, 128, 129, 255, 256, 257, 300] + ([] if q else [1000, 4096, 10000])}])
     ctx.units("rows-unicode", unit_unirows,
               [{"n": 2250 if q else 20000, "seed": ctx.seed, "shard": i} for i in range(8 if q else 16)], procs=16)
     ctx.units("roundtrip", unit_roundtrip,
